@@ -263,7 +263,10 @@ def _work(job: tuple) -> list[dict]:
         _PROGRAM = load_program()
     out = []
     for entry, pt, n in job:
-        out.append(run_point(_PROGRAM, entry, pt, n))
+        try:
+            out.append(run_point(_PROGRAM, entry, pt, n))
+        except AnalysisError as e:
+            out.append({"__analysis_error__": f"{entry[0]} {pt}: {e}"[:400]})
     return out
 
 
@@ -313,6 +316,10 @@ def check(chk: Check) -> None:
 
     tally: dict[str, int] = {}
     for r in results:
+        if "__analysis_error__" in r:
+            if len(chk.part_errors) < 5:
+                chk.part_errors.append(r["__analysis_error__"])
+            continue
         chk.paths += r["paths"]
         chk.functions.update(r.pop("_funcs"))
         pt = r["point"]
@@ -331,7 +338,7 @@ def check(chk: Check) -> None:
         else:
             chk.ok("C06.PATH.drained", inst, r, nontrivial=True)
     chk.note(f"verdict tally: {tally}")
-    _writer_table(chk)
+    chk.part("writer-table", lambda: _writer_table(chk))
 
 
 def _writer_table(chk: Check) -> None:
